@@ -157,6 +157,15 @@ def dispatchC06 : List Str → Option (List Str)
         let t := getUsed (mkUse ['m'] rest (cmd == "c06.usedfixed".toList)) pub
         some ("ok".toList :: t.map (fun p => p.1 ++ ['='] ++ p.2.2))
       | _ => some ["bad-request".toList]
+    else if cmd == "c06.used4".toList || cmd == "c06.used4fixed".toList then
+      -- c06.used4 <rest> <names of pub_procs> <pub_absints> <pub_types> <pub_vars> : the four returned
+      -- tables, entries `<k>:<local>=<remote>`
+      match args with
+      | [rest, n0, n1, n2, n3] =>
+        let mk : Str → Table := fun names => (words names).map (fun n => (n, (['m'], n)))
+        let ts := getUsedAll (mkUse ['m'] rest (cmd == "c06.used4fixed".toList)) [mk n0, mk n1, mk n2, mk n3]
+        some ("ok".toList :: (ts.zipIdx.flatMap (fun (t, k) => t.map (fun p => showNat k ++ [':'] ++ p.1 ++ ['='] ++ p.2.2))))
+      | _ => some ["bad-request".toList]
     else none
   | [] => none
 
